@@ -218,6 +218,20 @@ def fractNonzero : F64 → Bool
   | inf _ => true     -- inf.fract() = NaN ≠ 0
   | nan => true
 
+/-- `cmp_int_float` (src/data.rs): exact three-way comparison of an integer with a double, in
+`OrderedFloat`'s order (NaN above everything).  The code answers `Less` for NaN / `f ≥ 2^63`,
+`Greater` for `f < −2^63`, and otherwise compares `i` with `f.trunc() as i64` and, on equality,
+`0.0` with the fractional part `f − f.trunc()` (exact; zero or of the sign of `f`).  Here the
+truncation is the exact integer `truncInt`, so the two range guards (they only keep `as i64` from
+saturating) are subsumed by the integer comparison for every `i` of the i64 range
+(`F64.cmpIntFloat_eq_guarded`, AgProofs/Lemmas/F64.lean). -/
+def cmpIntFloat (i : Int) : F64 → Ordering
+  | nan => .lt
+  | inf s => if s then .gt else .lt
+  | fin s m e =>
+    (compare i (truncInt s m e)).then
+      (if fractNonzero (fin s m e) then (if s then .gt else .lt) else .eq)
+
 def i64Min : Int := -9223372036854775808
 def i64Max : Int := 9223372036854775807
 
